@@ -231,6 +231,11 @@ def _mirror_back(fnode, ref_eq):
                 x.left, x.comparators = x.comparators[0], [x.left]
 
 
+def _has_call(e):
+    return any(isinstance(y, (ast.Call, ast.Await, ast.Yield))
+               for y in ast.walk(e))
+
+
 def _inline_new_test_values(fnode, ref_names):
     """`v = <expr>` immediately followed by `if ... v ...:` where v is a
     local the reference does not know, bound once and read once (in that
@@ -265,6 +270,41 @@ def _inline_new_test_values(fnode, ref_names):
                     b.test = T().visit(b.test)
                     del stmts[i]
                     continue
+            # "explaining variable": v = <expr>; f(..., v, ...) with nothing
+            # that could run between the two evaluations
+            if isinstance(a, ast.Assign) and len(a.targets) == 1 and \
+                    isinstance(a.targets[0], ast.Name) and \
+                    isinstance(b, (ast.Expr, ast.Assign, ast.Return)) and \
+                    isinstance(getattr(b, 'value', None), ast.Call):
+                v = a.targets[0].id
+                call = b.value
+                if v not in ref_names and v not in ex and \
+                        stores.get(v) == 1 and loads.get(v) == 1 and \
+                        not _has_call(call.func):
+                    slots = [(call.args, j) for j in range(len(call.args))]
+                    done = False
+                    for lst, j in slots:
+                        arg = lst[j]
+                        if isinstance(arg, ast.Name) and arg.id == v:
+                            lst[j] = a.value
+                            del stmts[i]
+                            done = True
+                            break
+                        if _has_call(arg):
+                            break
+                    if not done and not any(_has_call(x_)
+                                            for x_ in call.args):
+                        for kw in call.keywords:
+                            if isinstance(kw.value, ast.Name) and \
+                                    kw.value.id == v:
+                                kw.value = a.value
+                                del stmts[i]
+                                done = True
+                                break
+                            if _has_call(kw.value):
+                                break
+                    if done:
+                        continue
             i += 1
 
     for x in ast.walk(fnode):
